@@ -38,6 +38,7 @@ type structDecoder struct {
 	keyDecoder         func(*structDecoder, []byte, int64) (int64, *structFieldSet, error)
 	keyStreamDecoder   func(*structDecoder, *Stream) (*structFieldSet, string, error)
 	foldFieldMap       map[string]*structFieldSet // lower-cased name to the first field of that name
+	ambiguousFields    []*structFieldSet          // fields dropped because their name is ambiguous: they still hide deeper fields of a struct that embeds this one
 }
 
 // lookupField returns the field an object key selects: the field of exactly
